@@ -114,6 +114,9 @@ def gen_cron(seed: int, n_day_traces: int, n_random: int) -> List[Dict[str, Any]
         if o["k"] == "zone" and not cd.pytz_agrees(cd.ZONES[o["z"] - 1], day, sod):
             continue
         calls.append({"e": "cron", "f": f, "o": o, "day": day, "sod": sod, "us": 0, "via_spec": True})
+    for i, c in enumerate(calls):
+        if i % 9 == 4:
+            c["also_time"] = (-86400, -1, 0, 20, 90, 86400)[(i // 9) % 6]       # cron entries that also carry a time (past / near / far)
     for i in range(0, len(calls), 1000):
         scns.append({"calls": calls[i:i + 1000], "family": "cron_random", "tz": [None, "JST-9", "EST5EDT"][(i // 1000) % 3]})
     # one expression at one instant under every offset, back to back in one process: the answer depends on the offset only
